@@ -775,6 +775,12 @@ def gen_system(rnd, cfg=None, deterministic_mass=False, min_components=1):
             comps.append(_deterministic_polymer(rnd, cfg.get("max_units", 40)))
         else:
             comps.append(_small_polymer(rnd, cfg))
+    zero_at = None
+    if cfg.get("allow_zero_mass") and n >= 2 and rnd.random() < 0.07:
+        # a component without heavy atoms (molecular hydrogen / deuterium): it is picked like any other and adds nothing to the
+        # accumulated heavy-atom mass, so iteration must simply carry on
+        zero_at = rnd.randrange(n)
+        comps[zero_at] = (rnd.choice(["[H][H]", "[H][H]", "[2H][2H]"]), {"arch:sys_zero_mass_component"})
     for _, t in comps:
         tags |= set(t)
     # rough member masses to size the system
@@ -790,10 +796,16 @@ def gen_system(rnd, cfg=None, deterministic_mass=False, min_components=1):
     total = max(sizes) * members
     form = rnd.choice(["abs", "abs", "pct", "sysarg", "unspecified_last"]) if n > 1 else rnd.choice(["abs", "abs", "sysarg"])
     raw = [rnd.choice([0.05, 1, 1, 2, 5, 9, 20]) for _ in range(n)]
+    if zero_at is not None:
+        raw[zero_at] = rnd.choice([5, 20, 60])
+        if max(sizes) <= 0:
+            return gen_system(rnd, cfg, deterministic_mass, min_components)
     if n >= 3 and form in ("pct", "sysarg", "unspecified_last") and rnd.random() < 0.3:
         # a component declared with exactly 0 % (valid: it is simply never generated)
-        raw[rnd.randrange(n - 1)] = 0.0
-        tags.add("mix:zero_percent")
+        k0 = rnd.randrange(n - 1)
+        if k0 != zero_at:
+            raw[k0] = 0.0
+            tags.add("mix:zero_percent")
     fr = [r / sum(raw) for r in raw]
     text = ""
     sysw = None
